@@ -315,11 +315,17 @@ def harness_build(ctx, hooks=False, timeout=1800):
     tdir = os.path.join(HARNESS, "target-hooks" if hooks else "target")
     if hooks:
         env["RUSTFLAGS"] = "--cfg autosar_data_verif"
+    cargo = ["cargo"]
+    if os.environ.get("VERIF_COV"):
+        # tools/coverage.sh: source-based coverage of /repo under the harness streams (nightly: its llvm-tools read the profiles)
+        tdir += "-cov"
+        env["RUSTFLAGS"] = (env.get("RUSTFLAGS", "") + " -C instrument-coverage").strip()
+        cargo = ["cargo", "+nightly"]
     env["CARGO_TARGET_DIR"] = tdir
     with BuildLock("cargo-hooks" if hooks else "cargo"):
         if not os.path.exists(os.path.join(HARNESS, "Cargo.lock")):
             shutil.copy(os.path.join(REPO, "Cargo.lock"), os.path.join(HARNESS, "Cargo.lock"))
-        rc, out, dt = run(["cargo", "build", "--offline", "--quiet"], cwd=HARNESS, timeout=timeout, env=env)
+        rc, out, dt = run(cargo + ["build", "--offline", "--quiet"], cwd=HARNESS, timeout=timeout, env=env)
     ok = rc == 0
     ctx.oblige("build:harness" + ("+hooks" if hooks else ""), ok, out[-1500:] if not ok else "")
     return os.path.join(tdir, "debug", "avh") if ok else None
